@@ -371,7 +371,7 @@ ErrorCode Library::write_gds(const char* filename, uint64_t max_points, tm* time
     double scaling = unit / precision;
     Cell** cell = cell_array.items;
     for (uint64_t i = 0; i < cell_array.count; i++, cell++) {
-        ErrorCode err = (*cell)->to_gds(out, scaling, max_points, precision, timestamp);
+        ErrorCode err = (*cell)->to_gds(out, scaling, max_points, precision / unit, timestamp);
         if (err != ErrorCode::NoError) error_code = err;
     }
 
